@@ -86,3 +86,20 @@ pub open spec fn packs_map(files: Seq<IndexFile>, n: int) -> Map<PackId, (u32, b
 pub open spec fn lengths_fit(p: IndexPack) -> bool {
     forall|s: Seq<IndexBlob>| #![auto] s.to_multiset() == p.blobs@.to_multiset() ==> start_of(s, s.len() as int) <= u32::MAX
 }
+
+// ---- GlobalIndex::new_from_collector: the index every command (restore, check_trees ...) works with ----
+pub struct Index { pub from: Ghost<Seq<IndexPack>> }
+impl IndexCollector {
+    // into_index (C17): the index answers lookups for exactly the packs the collector was fed
+    #[verifier::external_body]
+    pub fn into_index(self) -> (r: Index) ensures r.from@ == self.fed@, { unimplemented!() }
+}
+pub struct Arc<T> { pub v: T }
+impl<T> Arc<T> {
+    pub fn new(v: T) -> (r: Self) ensures r.v == v, { Arc { v } }
+}
+pub struct GlobalIndex { pub index: Arc<Index> }
+impl Progress {
+    #[verifier::external_body]
+    pub fn set_title(&self, _t: &str) { unimplemented!() }
+}
